@@ -531,3 +531,24 @@ def gen_plot_call(f, models):
         arg = {"__ref__": mid, "attr": MODEL_MATRIX[mt]}
     return {"op": "u.call", "fn": name, "args": [arg], "kw": {k: enc(v) for k, v in kw.items()},
             "sweep_exc": "RuntimeError"}
+
+
+def pdag_without_extension(f):
+    """A PDAG that admits no consistent extension, in which the Dor-Tarsi procedure removes some nodes before it gets
+    stuck: an undirected chordless cycle of length 4-5 with pendant sinks / pendant undirected leaves, nodes relabelled."""
+    L = f.choice([4, 4, 5])
+    extra = f.randint(1, 3)
+    p = L + extra
+    A = np.zeros((p, p))
+    for i in range(L):
+        j = (i + 1) % L
+        A[i, j] = A[j, i] = 1
+    for e in range(L, p):
+        c = f.randrange(L)
+        A[c, e] = 1                       # cycle node -> pendant sink
+        if f.random() < 0.3:
+            A[e, c] = 1                   # ... or an undirected pendant leaf
+    perm = list(range(p))
+    f.shuffle(perm)
+    A = A[np.ix_(perm, perm)]
+    return A.astype(f.choice([float, int, int, bool]))
